@@ -204,6 +204,46 @@ fn run(ctx: &Ctx, rep: &Report) {
     });
     rep.eval(extras.len() as u64);
     rep.count("destinations.random_or_odd", extras.len() as u64);
+    // 1b. SETS of destinations: every ordered pair and triple over a small family of related paths
+    // (siblings, parent/child directories, a file where another destination needs a directory, both
+    // spellings): with_file x n + build must return, never panic
+    {
+        let fam = ["/a", "/a/b", "/a/b/c", "/a/d", "/a/b/d", "/b", "/a/b/c/e", "./a/f", "/a.d/x", "/a/b.c", "./b/x", "/a//g", "/c/", "/zz/y/x/w"];
+        let n = fam.len();
+        let mut sets: Vec<Vec<&str>> = Vec::new();
+        for i in 0..n {
+            for j in 0..n {
+                sets.push(vec![fam[i], fam[j]]);
+                if i < 9 && j < 9 {
+                    for k in 0..9 {
+                        sets.push(vec![fam[i], fam[j], fam[k]]);
+                    }
+                }
+            }
+        }
+        par_for(ctx.threads, sets.len() as u64, 16, |i| {
+            let set = &sets[i as usize];
+            rep.nontrivial(hash_str(&set.join("|")) ^ 3);
+            let r = guard(|| {
+                let mut b = new_builder();
+                for d in set {
+                    b = match b.with_file(&src, FileOptions::new(*d)) {
+                        Ok(b) => b,
+                        Err(_) => return,
+                    };
+                }
+                let _ = b.build().map(|p| {
+                    let mut v = Vec::new();
+                    p.write(&mut v).map(|_| v.len())
+                });
+            });
+            if let Err(p) = r {
+                rep.violation(format!("panic:destination-set:{}", p.site()), format!("the destinations {set:?} make the builder panic: {}", p.message), json!({"kind": "destination-set", "destinations": set}), set.len() as u64);
+            }
+        });
+        rep.eval(sets.len() as u64);
+        rep.count("destination_sets", sets.len() as u64);
+    }
     // 2. capability strings through FileOptions::caps
     let ctoks = ["cap_chown", "CAP_SYSLOG", "all", "cap_bogus", ",", "=", "+", "-", "e", "i", "p", "x", " "];
     let clen = if ctx.is_dbg() { 3 } else { 4 };
@@ -350,6 +390,24 @@ fn replay(ctx: &Ctx, w: &serde_json::Value, rep: &Report) {
                 }
             }
         }
+        "destination-set" => {
+            let set: Vec<String> = w["destinations"].as_array().map(|a| a.iter().filter_map(|x| x.as_str().map(|s| s.to_string())).collect()).unwrap_or_default();
+            let r = guard(|| {
+                let mut b = new_builder();
+                for d in &set {
+                    b = match b.with_file(&src, FileOptions::new(d.as_str())) {
+                        Ok(b) => b,
+                        Err(e) => return format!("with_file({d:?}) -> Err({e})"),
+                    };
+                }
+                format!("build -> {:?}", b.build().map(|_| ()).map_err(|e| e.to_string()))
+            });
+            println!("monitor: destinations {set:?} -> {:?}", r.as_ref().map_err(|p| p.message.clone()));
+            if let Err(p) = r {
+                rep.violation(format!("panic:destination-set:{}", p.site()), p.message, w.clone(), 0);
+            }
+        }
+        "feature-probe" => feature_sets(ctx, rep),
         _ => println!("witness: {w}"),
     }
     let _ = std::fs::remove_dir_all(&dir);
